@@ -87,13 +87,13 @@ def _mc(ctx, prop):
 def _gen(ctx, prop):
     """TLC-generated histories + seeded random ones."""
     conf = CONF[prop]
-    n_tlc = 40 if ctx.quick else 1500
-    n_rnd = 220 if ctx.quick else 4000
+    n_tlc = 40 if ctx.quick else 250
+    n_rnd = 220 if ctx.quick else 1500
     wsets = [None] + [sc.WEIGHTS[w] for w in conf.get('weights', [])]
     out = []
     gens = list(conf['gen'])
     rs = random.Random(ctx.seed * 65537)
-    for j in range(conf.get('randscn', 0) * (1 if ctx.quick else 8)):
+    for j in range(conf.get('randscn', 0) * (1 if ctx.quick else 5)):
         name = 'rq%d' % j
         sc.gen_queue_scn(rs, name)
         for _ in range(25 if ctx.quick else 60):
@@ -130,7 +130,7 @@ def _l2_traces(ctx, prop, histories=None):
     from . import master_common as mcm, master_l2
     rng = random.Random(ctx.seed * 31337 + 7)
     if histories is None:
-        n = L2_PROPS[prop] * (1 if ctx.quick else 12)
+        n = L2_PROPS[prop] * (1 if ctx.quick else 6)
         histories = [mcm.gen_random(mcm.SCENARIOS['base'], rng, rng.choice([8, 12, 16]))
                      for _ in range(n)]
         if prop == 'C02':
